@@ -58,6 +58,11 @@ def St.modByName (s : St) (n : String) : Option ModId :=
 
 def tableSize : Nat := 256
 def pipeCap : Nat := 8192
+/-- kernel: a pipe is a ring of 16 pages of 512 pointers; a page is handed back only when every pointer in it was read,
+so what counts against the capacity is the pending messages plus the ones already read out of the first page -/
+def pipePage : Nat := 512
+/-- `k` pointers were read from a pipe that held `len` of them -/
+def skipAfterRead (skip len k : Nat) : Nat := if k ≥ len then 0 else (skip + k) % pipePage
 
 /-- `m_ctx()`: the thread's context, unless the executing callback belongs to a DENY_CTX module -/
 def mctx (s : St) : Option Ctx :=
@@ -147,7 +152,7 @@ def tellIf (s : St) (msg : Msg) (key : TellKey) (r : ModId) : St :=
       let s1 := holderRef s msg.holder
       match md.pipe with
       | some q =>
-        if q.length < pipeCap then s1.updMod r fun md => { md with pipe := some (q ++ [copy]) }
+        if q.length + md.pipeSkip < pipeCap then s1.updMod r fun md => { md with pipe := some (q ++ [copy]) }
         else destroyMsg s1 copy          -- pipe full: the copy is dropped
       | none => destroyMsg s1 copy
     else s
@@ -281,7 +286,7 @@ def flushDestroy (s : St) (m : ModId) : St :=
   match s.mods[m]? with
   | some md =>
     match md.pipe with
-    | some q => (q.foldl destroyMsg s).updMod m fun md => { md with pipe := some [] }
+    | some q => (q.foldl destroyMsg s).updMod m fun md => { md with pipe := some [], pipeSkip := 0 }
     | none => s
   | none => s
 
@@ -324,7 +329,7 @@ def manageSrcsAdd (s : St) (m : ModId) : St :=
 
 /-- the fields `reset_module` clears -/
 def Mod.reset (md : Mod) : Mod :=
-  { md with pipe := none, subs := [], recvs := [], stash := [], batch := [],
+  { md with pipe := none, pipeSkip := 0, subs := [], recvs := [], stash := [], batch := [],
             batchLen := 0, batchInf := false, batchTimer := 0, tb := none, tbTimer := 0 }
 
 /-- `reset_module` -/
@@ -364,7 +369,7 @@ def stopP (m : ModId) (stopping : Bool) (leave : Bool := false) : Prog Int := do
 /-- `start(mod, starting)` -/
 def startP (m : ModId) (starting : Bool) : Prog Int := do
   -- init_pubsub_fd: a fresh pipe and its internal source
-  modify fun s => if starting then s.updMod m (fun md => { md with pipe := some [], pipeGen := md.pipeGen + 1 }) else s
+  modify fun s => if starting then s.updMod m (fun md => { md with pipe := some [], pipeSkip := 0, pipeGen := md.pipeGen + 1 }) else s
   modify fun s => manageSrcsAdd s m
   modify fun s => setState (s.updCtxId (s.ctxIdOf m) fun c => { c with running := c.running + 1 }) m .running
   let s ← getSt
@@ -375,7 +380,8 @@ def startP (m : ModId) (starting : Bool) : Prog Int := do
     pure 0
   else if ret == -1 then do
     let s ← getSt
-    if isRP s m then do let _ ← stopP m true; pure 0 else pure 0
+    -- the stop hook may deregister the module: the callers are told that it is gone (it may have been freed already)
+    if isRP s m then do let r ← stopP m true; pure (if r == ENOENT then ENOENT else 0) else pure 0
   else pure ret
 
 /-- `evaluate_module` (thresholds are not modelled) -/
@@ -440,9 +446,11 @@ def modDeregCore (autoRelease : Prog Int) (m : ModId) : Prog Int := do
           let _ ← stopP m true true
           modify fun s => setState s m .zombie
           let s ← getSt
+          -- the test reads the module's own context object (`m->ctx`): if that one was released meanwhile (by the stop
+          -- hook) it stays marked as being destroyed, whatever context the thread has registered since
           match s.ctx with
           | some c =>
-            if c.state == .idle && s.tableLen = 0 && !c.persist && !c.destroying then autoRelease
+            if c.id == s.ctxIdOf m && c.state == .idle && s.tableLen = 0 && !c.persist && !c.destroying then autoRelease
             else pure 0
           | none => pure 0
     | _, _ => pure EPERM
@@ -557,13 +565,14 @@ def flushModP (m : ModId) : Prog Int := do
         let pilled := !rest.isEmpty
         -- messages before the pill become events; the pill itself is destroyed; the rest stays for stop()
         -- events still being batched arrived earlier: they are handed over first
-        modify fun s => s.updMod m fun md => { md with pipe := some (rest.drop 1), batch := [] }
+        modify fun s => s.updMod m fun md => { md with pipe := some (rest.drop 1), batch := [],
+                                                        pipeSkip := skipAfterRead md.pipeSkip q.length (q.length - (rest.drop 1).length) }
         let evts := md.batch ++ pre.map fun x => ({ kind := .ps, msg := some x, src := x.sub } : Evt)
         callPubsubCb m evts
         let s ← getSt
         if pilled && isRP s m then do let _ ← stopP m true; pure 0 else pure 0
       else do
-        modify fun s => (q.foldl destroyMsg s).updMod m fun md => { md with pipe := some [] }
+        modify fun s => (q.foldl destroyMsg s).updMod m fun md => { md with pipe := some [], pipeSkip := 0 }
         pure 0
 
 /-- `loop_start` -/
@@ -575,11 +584,24 @@ def loopStartP : Prog Int := do
   modify fun s => tellSystem s none none T_CTX_STARTED
   pure 0
 
-/-- `loop_stop` (the context object `c` stays alive throughout, even if a callback releases it) -/
-def loopStopP : Prog Int := do
+/-- the model does not follow the C code here: from this point of a script on, the correspondence run compares nothing
+(the oracles still judge the implementation's trace); the evidence counts how often this happens -/
+def unmodelled (what : String) : Prog Int := do
+  modify fun s => s.emit (.note s!"UNMODELLED {what}")
+  pure 0
+
+/-- `loop_stop(c)`; `cid` identifies the context object the caller holds (the context object `c` stays alive throughout,
+even if a callback releases it).  If that context was already released when the function is entered (a callback of the
+blocking loop tore it down) the C code works on a dead object while the thread may own another one: not modelled. -/
+def loopStopP (cid : Nat) : Prog Int := do
   let s0 ← getSt
-  let (cid, code0) : Nat × Int := match s0.ctx with | some c => (c.id, c.quitCode) | none => (0, 0)
-  modify fun s => s.updCtx fun c => { c with state := .idle }
+  match s0.ctx with
+  | none => unmodelled "loop_stop on a context that a callback released"
+  | some c0 =>
+  if c0.id != cid then unmodelled "loop_stop on a context that a callback released and replaced" else do
+  let code0 : Int := c0.quitCode
+  -- the callbacks run by the final flush cannot start the loop again (`stopping`)
+  modify fun s => s.updCtx fun c => { c with state := .idle, stopping := true }
   modify fun s => tellSystem s none none T_CTX_STOPPED
   let _ ← iterMods flushModP
   let s ← getSt
@@ -589,7 +611,7 @@ def loopStopP : Prog Int := do
   | some c =>
     if c.id != cid then pure dead
     else do
-      modify fun s => s.updCtx fun c => { c with tickPolled := false, recvMsgs := 0 }
+      modify fun s => s.updCtx fun c => { c with tickPolled := false, recvMsgs := 0, stopping := false }
       -- the quit code is read after the flush (a re-entrant dispatch may have restarted the loop)
       let code : Int := c.quitCode
       if s.tableLen = 0 && !c.persist then do let _ ← ctxDeregisterP; pure code else pure code
@@ -643,7 +665,7 @@ def recvOneP (p : PollEnt) : Prog Nat := do
       if !md.pipePolled || md.pipeGen != gen then pure 0
       else match md.pipe with
       | some (msg :: rest) => do
-        modify fun s => s.updMod m fun md => { md with pipe := some rest }
+        modify fun s => s.updMod m fun md => { md with pipe := some rest, pipeSkip := skipAfterRead md.pipeSkip (rest.length + 1) 1 }
         -- one-shot subscription: consumed by its first message
         modify fun s => consumeOneshot s m md msg
         if msg.pill then do
@@ -1100,23 +1122,24 @@ def apiDispatch : Prog Int := do
   match mctx s with
   | none => pure EPIPE
   | some c =>
-    if c.state == .idle then (if c.destroying then pure EINVAL else loopStartP)
-    else if c.quit || c.running = 0 then loopStopP
+    if c.state == .idle then (if c.destroying || c.stopping then pure EINVAL else loopStartP)
+    else if c.quit || c.running = 0 then loopStopP c.id
     else do
       let b ← nextBatch
       recvEventsP b
 
-/-- `while (!c->quit && c->stats.running_modules > 0) recv_events(c, -1);` — one iteration per recorded batch -/
-def loopBody : Nat → Prog Unit
+/-- `while (!c->quit && c->stats.running_modules > 0) recv_events(c, -1);` — one iteration per recorded batch;
+`cid`: the context object the loop runs on (the loop ends when a callback released it) -/
+def loopBody (cid : Nat) : Nat → Prog Unit
   | 0 => pure ()
   | n + 1 => do
     let s ← getSt
     match s.ctx with
     | some c =>
-      if !c.quit && c.running > 0 then do
+      if c.id == cid && !c.quit && c.running > 0 then do
         let b ← nextBatch
         let _ ← recvEventsP b
-        loopBody n
+        loopBody cid n
       else pure ()
     | none => pure ()
 
@@ -1128,10 +1151,11 @@ def apiLoop : Prog Int := do
   | some c =>
     if c.state != .idle then pure EINVAL
     else if c.destroying then pure EINVAL
+    else if c.stopping then pure EINVAL
     else do
       let _ ← loopStartP
       let s ← getSt
-      loopBody (s.batches.length + 1)
-      loopStopP
+      loopBody c.id (s.batches.length + 1)
+      loopStopP c.id
 
 end Lm.Core
